@@ -187,6 +187,8 @@ def check_case(ctx, case):
     late = strip_marks(case["late"])
     kw = {k: gen.build_attr_value(v) for k, v in case["kw"]}
     doc = ht.HTMLDocument(*[gen.build(c) for c in content], **kw)
+    if late and case.get("render_before_append", True):
+        doc.render()  # an earlier rendering must not influence the one after append()
     if case.get("late_together") and late:
         doc.append(*[gen.build(c) for c in late])
     else:
